@@ -10,6 +10,7 @@ import PymaVerif.Model.Machine
 import PymaVerif.Model.Cauchy
 import PymaVerif.Model.Projector
 import PymaVerif.Model.Validate
+import PymaVerif.Model.Kpm
 
 open Lean Pyma Pyma.Dsl Pyma.BlockDiag
 
@@ -428,6 +429,19 @@ def runValidate (j : Json) : Except String String := do
     | .notImplemented s => s!"NotImplementedError:{s}")
 end ValCmd
 
+
+/-! ## `kpm`: loop control of `kpm.greens_function` on a given sequence of residues -/
+namespace KpmCmd
+def runKpm (j : Json) : Except String String := do
+  let atol ← parseRat (← j.getObjValAs? String "atol")
+  let maxM ← j.getObjValAs? Nat "max_moments"
+  let rs ← (← getArr j "residues").toList.mapM fun e => do
+    pure (← e.getObjValAs? Nat "m", ← parseRat (← e.getObjValAs? String "r"))
+  let resid : Nat → Rat := fun m => match rs.find? (·.1 == m) with | some (_, r) => r | none => 0
+  let r := Pyma.Kpm.greens resid atol maxM 64
+  pure s!"{match r.moments with | some k => toString k | none => "unbound"} {r.warned}"
+end KpmCmd
+
 partial def loop (h : IO.FS.Stream) : IO Unit := do
   let line ← h.getLine
   if line.isEmpty then return ()
@@ -450,6 +464,10 @@ partial def loop (h : IO.FS.Stream) : IO Unit := do
       | .error e => IO.println s!"bad-request {e}"
     | .ok "nof" =>
       match runNof j with
+      | .ok l => IO.println l
+      | .error e => IO.println s!"bad-request {e}"
+    | .ok "kpm" =>
+      match KpmCmd.runKpm j with
       | .ok l => IO.println l
       | .error e => IO.println s!"bad-request {e}"
     | .ok "validate" =>
